@@ -232,3 +232,5 @@ A({"name": "c07-multiple-1to1", "props": ["C07"], "rule": "SUB-1to1", "expect": 
 A(V("c07-vvar-twin-diverged", "C07", SUB, "        used.update(s.reverseOrigGlyphMap.values())\n        advIdxes_ = used.copy()\n        retainAdvMap = s.options.retain_gids\n\n    if table.TsbMap:", "        used.update(s.reverseOrigGlyphMap.values())\n        advIdxes_ = used\n        retainAdvMap = s.options.retain_gids\n\n    if table.TsbMap:", "F22-hvar"))
 A(V("c03-ttpush-signext", ["C03", "C15"], "ttLib/tables/ttProgram.py", "                                if value >= 0x8000:", "                                if value > 0x8000:", "F5-ttpush"))
 A(V("c03-glyf-split-case", ["C03", "C19"], "ttLib/tables/_g_l_y_f.py", "                    existingGlyphFiles.add(glyphPath.lower())", "                    existingGlyphFiles.add(glyphPath)", "F25-name"))
+A(V("c08-distances-dropped", "C08", INS, "                mappedMax,\n                axisRange.distanceNegative,\n                axisRange.distancePositive,\n            )", "                mappedMax,\n            )", "DIST"))
+A(V("c04-woff2-head-before-loca", "C04", "ttLib/woff2.py", "            self._normaliseGlyfAndLoca(padding=4)\n        self._setHeadTransformFlag()\n", "            self._setHeadTransformFlag()\n            self._normaliseGlyfAndLoca(padding=4)\n", "W2-order"))
